@@ -80,7 +80,10 @@ def hypothetical_attributions(multipliers, X, references):
 
 
 def _register_hooks(module): 
-	if len(module._backward_hooks) > 0:
+	# Already registered by this call (a module instance reachable through two
+	# parents is visited twice by `apply`). A backward hook registered by the
+	# caller must not make us skip the module.
+	if len(getattr(module, "handles", [])) > 0:
 		return
 	if not isinstance(module, tuple(module._NON_LINEAR_OPS.keys())):
 		return
